@@ -10,6 +10,22 @@ CLAIMED = {
          "Design: TLC proves, for every torus up to N x N, that BFS distance is translation invariant and equals the closed forms, and explores the walk state machine exhaustively. Conformance: each value rig returns is an event that TLC judges against the BFS tables; all source/destination pairs of all small tori are enumerated, larger ones sampled.",
          "Trusted: TLC, the Json override, the mechanical event encoding in harness/props/c11.py. Random tie-breaks are sampled (several seeds), not enumerated.",
          "DESIGN.md §6 C11"),
+ "C19": ("TLA+ spec Spinn5 (48-chip tile, three-board tiling) with TLC-evaluated partition/edge obligations and a walk machine (Spinn5Design) + TLC trace validation of rig's five SpiNN-5 functions (Spinn5Trace.tla)",
+         "Design: TLC checks that the tile has 48 chips, that the boards partition the plane, that 48 links leave a board, and (state machine) that stepping over a leaving link is exactly what changes the local Ethernet chip. Conformance: every returned value is an event judged against the tiling, never against rig's tables.",
+         "Trusted: TLC, Json override, event encoding in harness/props/c19.py. On ragged machines the local Ethernet chip is judged only when the board origin lies inside the machine.",
+         "DESIGN.md §6 C19"),
+ "C15": ("TLA+ spec Packets (byte-sequence wire layout) model-checked for round trip / field isolation (PacketsDesign) + TLC trace validation of rig's encode/decode results (PacketsTrace.tla)",
+         "Design: TLC sweeps every header field over its width against all-zero/all-one neighbours and checks round trip, fewer-argument decoding and byte-level isolation of the layout. Conformance: every bytestring rig produces and every packet it decodes is an event compared with the layout by TLC.",
+         "Trusted: TLC, Json override, the mechanical int->little-endian-bytes encoding of 32-bit arguments in harness/props/c15.py.",
+         "DESIGN.md §6 C15"),
+ "C12": ("TLA+ spec Regions (meaning of a region word) + RegionsDesign (collapse rule, every insertion order, TLC exhaustive) + TLC trace validation of compress_flood_fill_regions / get_region_for_chip (RegionsTrace.tla)",
+         "Design: the per-core collapse rule on a scaled hierarchy selects exactly the added cores once, for every insertion order (65k states). Conformance: every (region, core mask) list rig returns is judged by covering + counting, strict order and well-formedness.",
+         "Trusted: TLC, Json override, the region-word meaning written in Regions.tla from 'Managing Big SpiNNaker Machines' as quoted in regions.py; word -> 4 bytes encoding in the harness.",
+         "DESIGN.md §6 C12"),
+ "C05": ("TLA+ spec Allocate + AllocateDesign (the greedy scan as coded; soundness, progress, termination under fairness, completeness; TLC exhaustive) + TLC trace validation of every range allocate() grants (AllocateTrace.tla)",
+         "Design: TLC explores the scan for every reservation layout/order, request sequence and alignment at small constants, including liveness. Conformance: each call of allocate() is a trace (grant events, then ok/raise) with Size/InRange/OnAlignment/Unreserved/Disjoint/Once/AllGranted/OnlyDocumentedError/Complete clauses evaluated by TLC.",
+         "Trusted: TLC, Json override, the projection of constraints and results into the trace in harness/props/c05.py. Completeness is judged only for non-overlapping end reservations without alignment (the property's own precondition).",
+         "DESIGN.md §6 C05"),
 }
 NOT_YET = "check not built yet in this round (planned in DESIGN.md §6); not claimed until its spec and conformance harness exist"
 
